@@ -1,40 +1,81 @@
 ----------------------------- MODULE MC_Calculus -----------------------------
 EXTENDS Integers, Sequences, FiniteSets, TLC, TLCExt, Json, CSV, IOUtils, SequencesExt
-CONSTANTS MaxTerms, Emit
+CONSTANTS MaxTerms, Emit,
+          Alphabet,     \* "plain" | "shadow" | "pair": which factors the terms are built from (below)
+          MaxParts,     \* 1: simple formulas; > 1: structured formulas of up to MaxParts parts
+          Variant       \* "spec", or a design error of Calculus.tla that TLC must refute ("required", "consumed")
 K == INSTANCE Calculus
 
-Vars == <<"x1", "yy", "z", "w">>        \* names of different lengths: a variable is matched as a whole name
-WrtVars == <<"x1", "yy", "z", "w", "v0">>      \* "v0" occurs in no term
+(* The factors.  "plain": four data columns of different lengths (a variable is matched as a whole name), each term optionally     *)
+(* scaled by the literal 2.  "shadow": factors that the formula does NOT report among the variables it requires - a column called  *)
+(* like a transform (scale: the name may resolve without data, so it is not reported), a python factor (I(x1): the formula reports *)
+(* x1, the factor is I(x1)) - and a quoted name (`my var`: the factor is the bare name).  To the calculus they are factors like     *)
+(* any other.  "pair": one plain and one shadowed column, for the structured formulas.                                             *)
+FacSeq == CASE Alphabet = "plain"  -> <<K!Fac("x1", "lookup"), K!Fac("yy", "lookup"), K!Fac("z", "lookup"), K!Fac("w", "lookup")>>
+            [] Alphabet = "shadow" -> <<K!Fac("scale", "lookup"), K!Fac("I(x1)", "python"), K!Fac("my var", "lookup")>>
+            [] Alphabet = "pair"   -> <<K!Fac("x1", "lookup"), K!Fac("scale", "lookup")>>
+Vars == [i \in DOMAIN FacSeq |-> FacSeq[i].e]
+Absent == IF Alphabet = "shadow" THEN "C" ELSE "v0"       \* occurs in no term ("C" is called like a transform, too)
+WrtVars == Append(Vars, Absent)
+\* the names a factor makes the formula report as required (Formula.required_variables): what the "required" design error keys on
+Req(f) == IF f.m = "python" THEN {"x1"} ELSE IF f.e \in {"scale", "C"} THEN {} ELSE {f.e}
+Required(ts) == UNION {UNION {Req(ts[i][j]) : j \in {j \in DOMAIN ts[i] : ~K!IsLiteral(ts[i][j])}} : i \in DOMAIN ts}
 \* candidate terms: non-empty subsets of Vars in the order of Vars, optionally scaled by the literal 2
-SubsetTerm(S, scaled) == (IF scaled THEN <<K!LitFac("2", TRUE, 2)>> ELSE <<>>) \o
-                         LET vs == SelectSeq(Vars, LAMBDA v : v \in S) IN [i \in DOMAIN vs |-> K!Fac(vs[i], "lookup")]
-TermPool == {SubsetTerm(S, sc) : S \in (SUBSET {"x1", "yy", "z", "w"}) \ {{}}, sc \in BOOLEAN}
-Rows == << [x1 |-> 2, yy |-> 3, z |-> -1, w |-> 5, v0 |-> 7], [x1 |-> 0, yy |-> -2, z |-> 4, w |-> 1, v0 |-> 1], [x1 |-> 3, yy |-> 3, z |-> 2, w |-> -3, v0 |-> 0] >>
+SubsetTerm(S, scaled) == (IF scaled THEN <<K!LitFac("2", TRUE, 2)>> ELSE <<>>) \o SelectSeq(FacSeq, LAMBDA f : f.e \in S)
+TermPool == {SubsetTerm(S, sc) : S \in (SUBSET K!Range(Vars)) \ {{}}, sc \in IF Alphabet = "plain" THEN BOOLEAN ELSE {FALSE}}
+Rows == CASE Alphabet = "plain"  -> << [x1 |-> 2, yy |-> 3, z |-> -1, w |-> 5, v0 |-> 7], [x1 |-> 0, yy |-> -2, z |-> 4, w |-> 1, v0 |-> 1], [x1 |-> 3, yy |-> 3, z |-> 2, w |-> -3, v0 |-> 0] >>
+          [] Alphabet = "shadow" -> << ("scale" :> 2 @@ "I(x1)" :> -1 @@ "my var" :> 5 @@ "C" :> 7),
+                                       ("scale" :> 0 @@ "I(x1)" :> 4 @@ "my var" :> 1 @@ "C" :> 1),
+                                       ("scale" :> 3 @@ "I(x1)" :> 2 @@ "my var" :> -3 @@ "C" :> 0) >>
+          [] Alphabet = "pair"   -> << [x1 |-> 2, scale |-> 3, v0 |-> 7], [x1 |-> 0, scale |-> -2, v0 |-> 1], [x1 |-> 3, scale |-> 5, v0 |-> 0] >>
 
-VARIABLES terms, wrt, icpt
-vars == <<terms, wrt, icpt>>
+VARIABLES terms, wrt, icpt,
+          closed        \* the parts before the one being written (<<>> throughout when MaxParts = 1)
+vars == <<terms, wrt, icpt, closed>>
 
-Formula == K!SortByDegree((IF icpt THEN <<K!OneTerm>> ELSE <<>>) \o terms)
-Deriv == K!DFormula(Formula, wrt)
+FormulaOf(ts) == K!SortByDegree((IF icpt THEN <<K!OneTerm>> ELSE <<>>) \o ts)
+Formula == FormulaOf(terms)
+Parts == [k \in 1..(Len(closed) + 1) |-> FormulaOf(Append(closed, terms)[k])]
+DerivParts == K!DStructuredV(Variant, Parts, wrt, [k \in DOMAIN Parts |-> Required(Parts[k])])
+Deriv == DerivParts[Len(Parts)]           \* MaxParts = 1: the derivative of the formula
 
 Laws == /\ Len(Deriv) = Len(Formula)
-        /\ \A i \in DOMAIN Formula : \A vi \in DOMAIN Vars : \A r \in DOMAIN Rows : \A h \in {1, 2} :
-              K!FiniteDifference(Formula[i], Vars[vi], Rows[r], h)
-        /\ \A i \in DOMAIN Formula : \A u, v \in {WrtVars[j] : j \in DOMAIN WrtVars} : K!Compositional(Formula[i], u, v)
+        /\ \A k \in DOMAIN Parts : \A i \in DOMAIN Parts[k] : \A vi \in DOMAIN Vars : \A r \in DOMAIN Rows : \A h \in {1, 2} :
+              K!FiniteDifference(Parts[k][i], Vars[vi], Rows[r], h)
+        /\ \A k \in DOMAIN Parts : \A i \in DOMAIN Parts[k] : \A u, v \in {WrtVars[j] : j \in DOMAIN WrtVars} : K!Compositional(Parts[k][i], u, v)
+        \* the formula level: the same parts, and every part's output is what the property says of it
+        /\ Len(DerivParts) = Len(Parts)
+        /\ \A k \in DOMAIN Parts : K!OutputLaw(Parts[k], DerivParts[k], wrt, Rows)
 
 TermOut(t) == [j \in DOMAIN t |-> t[j].e]
+ColsOut(ts) == [i \in DOMAIN ts |-> [r \in DOMAIN Rows |-> K!ColAt(ts[i], Rows[r])]]
 Out == IOEnv.OUT_FILE
 EmitCase ==
-  Emit => CSVWrite("%1$s", <<ToJson([terms |-> [i \in DOMAIN terms |-> TermOut(terms[i])], icpt |-> icpt, wrt |-> wrt,
-             f |-> [i \in DOMAIN Formula |-> TermOut(Formula[i])],
-             d |-> [i \in DOMAIN Deriv |-> TermOut(Deriv[i])],
-             cols |-> [i \in DOMAIN Deriv |-> [r \in DOMAIN Rows |-> K!ColAt(Deriv[i], Rows[r])]],
-             orig |-> [i \in DOMAIN Formula |-> [r \in DOMAIN Rows |-> K!ColAt(Formula[i], Rows[r])]]])>>, Out)
+  Emit => CSVWrite("%1$s", <<ToJson(
+     IF MaxParts = 1
+     THEN [terms |-> [i \in DOMAIN terms |-> TermOut(terms[i])], icpt |-> icpt, wrt |-> wrt,
+           f |-> [i \in DOMAIN Formula |-> TermOut(Formula[i])],
+           d |-> [i \in DOMAIN Deriv |-> TermOut(Deriv[i])],
+           cols |-> ColsOut(Deriv),
+           orig |-> ColsOut(Formula)]
+     ELSE [icpt |-> icpt, wrt |-> wrt,
+           parts |-> [k \in DOMAIN Parts |-> [terms |-> LET ts == Append(closed, terms)[k] IN [i \in DOMAIN ts |-> TermOut(ts[i])],
+                                              f |-> [i \in DOMAIN Parts[k] |-> TermOut(Parts[k][i])],
+                                              d |-> [i \in DOMAIN DerivParts[k] |-> TermOut(DerivParts[k][i])],
+                                              cols |-> ColsOut(DerivParts[k]),
+                                              orig |-> ColsOut(Parts[k])]]])>>, Out)
 
-Init == /\ terms = <<>> /\ icpt \in BOOLEAN
+Init == /\ terms = <<>> /\ icpt \in BOOLEAN /\ closed = <<>>
         /\ wrt \in {<<>>} \cup {<<WrtVars[a]>> : a \in DOMAIN WrtVars} \cup {<<WrtVars[a], WrtVars[b]>> : a, b \in DOMAIN WrtVars}
-Next == /\ Len(terms) < MaxTerms
-        /\ \E t \in TermPool : (\A i \in DOMAIN terms : K!Exprs(terms[i]) # K!Exprs(t) /\ K!NonLitExprs(terms[i]) # K!NonLitExprs(t)) /\ terms' = Append(terms, t)
+RECURSIVE SumLens(_)
+SumLens(ps) == IF ps = <<>> THEN 0 ELSE Len(Head(ps)) + SumLens(Tail(ps))
+Written == Len(terms) + SumLens(closed)
+Next == /\ Written < MaxTerms
+        /\ \E t \in TermPool :
+             \/ /\ \A i \in DOMAIN terms : K!Exprs(terms[i]) # K!Exprs(t) /\ K!NonLitExprs(terms[i]) # K!NonLitExprs(t)
+                /\ terms' = Append(terms, t) /\ closed' = closed
+             \/ /\ terms # <<>> /\ Len(closed) + 1 < MaxParts         \* t opens the next part (the terms of different parts are unrelated)
+                /\ closed' = Append(closed, terms) /\ terms' = <<t>>
         /\ UNCHANGED <<wrt, icpt>>
 Spec == Init /\ [][Next]_vars
 =============================================================================
